@@ -3,6 +3,7 @@
 //! payloads and adjacent floats are exact; the check maps them to the model's order key.
 //!
 //!   parse <text>                    the handlers' score parser -> bits | bad
+//!   fmt <bits>                      the handlers' score formatter (f64 Display) -> text
 //!   sl new                          fresh skip list
 //!   sl ins <member> <bits>          insert -> old=<bits|none> <dump>
 //!   sl rem <member>                 remove -> old=<bits|none> <dump>
@@ -70,6 +71,8 @@ fn step(st: &mut St, ws: &[&str]) -> String {
             Some(b) => match String::from_utf8_lossy(&b).parse::<f64>() { Ok(v) => show_score(v), Err(_) => "bad".into() },
             None => bad(),
         },
+        // `score.to_string()` exactly as the handlers render a score
+        ["fmt", b] => match bits(b) { Some(v) => to_hex(v.to_string().as_bytes()), None => bad() },
         ["sl", "new"] => { st.sl = SkipList::new(); "ok".into() }
         ["sl", "ins", m, s] => match (of_hex(m), bits(s)) {
             (Some(m), Some(s)) => { let old = st.sl.insert(m, s); format!("old={} {}", show_opt(old), dump(&st.sl)) }
